@@ -166,7 +166,7 @@ class Harness(object):
         while idle < 12 and n < 2000:
             await asyncio.sleep(0)
             n += 1
-            sig = (self.moves, len(self.log), len(self.cancelled), sum(1 for t in self.tasks.values() if t.done()))
+            sig = (self.moves, len(self.log), len(self.cancelled), len(getattr(self, 'results', {})))
             if sig == last:
                 idle += 1
             else:
@@ -174,15 +174,35 @@ class Harness(object):
                 last = sig
 
     def snapshot(self):
-        rev = {id(t): ev for ev, t in self.tasks.items()}
         reg = []
         for m, mod in enumerate(self.models):
             ts = self.base.async_tasks.get(id(mod), None)
             if ts is not None:
-                reg.append([m, [rev.get(id(t), 98) for t in ts]])
+                reg.append([m, [self.current.get(id(t), 98) for t in ts]])
         known = {id(mod) for mod in self.models}
         stray = sum(1 for k in self.base.async_tasks if k not in known)
         return reg, stray
+
+    async def script(self, chain):
+        """one asyncio task awaiting the triggers of `chain` one after another (an exception of a trigger is caught
+        by the caller, as a user would); each later trigger waits for its start step"""
+        me = asyncio.current_task()
+        for idx, ev in enumerate(chain):
+            if idx > 0:
+                await self.gates[ev]
+            self.current[id(me)] = ev
+            prot = self.machine.protected_tasks
+            if ev in self.case['protected'] and me not in prot:
+                prot.append(me)
+            if ev not in self.case['protected'] and me in prot:
+                prot.remove(me)
+            m = self.case['events'][ev]['model']
+            try:
+                res = res_code(await getattr(self.models[m], 'e%d' % ev)())
+            except BaseException as ex:  # noqa
+                res = [1, exc_code(ex)]
+            self.results[ev] = [ev] + res
+            self.moves += 1
 
     async def run(self):
         case = self.case
@@ -190,6 +210,13 @@ class Harness(object):
         self.base.async_tasks.clear()
         del self.base.protected_tasks[:]
         top = set(case['top'])
+        pred = {e: p for e, p in case.get('pred', [])}
+        succ = {p: e for e, p in case.get('pred', [])}
+        loop = asyncio.get_running_loop()
+        self.gates = {e: loop.create_future() for e in pred}
+        self.current = {}
+        self.results = {}
+        reported = set()
         started = set()
         steps = []
         try:
@@ -197,44 +224,40 @@ class Harness(object):
                 self.log = []
                 self.cancelled = []
                 kind = 0
-                if ev in top and ev not in started:
+                if ev in top and ev not in started and (ev not in pred or pred[ev] in self.results):
                     started.add(ev)
                     kind = 1
-                    m = case['events'][ev]['model']
-                    t = asyncio.ensure_future(getattr(self.models[m], 'e%d' % ev)())
-                    self.tasks[ev] = t
-                    if ev in case['protected']:
-                        self.machine.protected_tasks.append(t)
+                    if ev in pred:
+                        self.gates[ev].set_result(None)      # the task that awaited pred[ev] goes on with ev
+                    else:
+                        chain = [ev]
+                        while chain[-1] in succ and len(chain) < 50:
+                            chain.append(succ[chain[-1]])
+                        self.tasks[ev] = asyncio.ensure_future(self.script(chain))
                     await self.quiesce()
                 elif ev in self.pending and not self.pending[ev].done():
                     kind = 2
                     self.pending[ev].set_result(None)
                     await self.quiesce()
-                done = []
-                for e2 in sorted(self.tasks):
-                    t = self.tasks[e2]
-                    if t.done() and e2 not in self.done_seen:
-                        self.done_seen.add(e2)
-                        if t.cancelled():
-                            done.append([e2, 1, X_CANCEL])
-                        elif t.exception() is not None:
-                            done.append([e2, 1, exc_code(t.exception())])
-                        else:
-                            done.append([e2] + res_code(t.result()))
+                done = [self.results[e2] for e2 in sorted(self.results) if e2 not in reported]
+                reported.update(self.results)
                 reg, stray = self.snapshot()
                 steps.append([kind, self.log, sorted(self.cancelled), done,
                               [self.state_int(m) for m in range(len(self.models))], reg, stray,
                               sorted(k for k, f in self.pending.items() if not f.done())])
-            unfinished = sorted(e2 for e2, t in self.tasks.items() if not t.done())
-            nprot = len(self.machine.protected_tasks)
+            unfinished = sorted(e2 for e2 in started if e2 not in self.results)
         finally:
+            for f in list(self.gates.values()) + list(self.pending.values()):
+                if not f.done():
+                    f.cancel()
             for t in self.tasks.values():
                 if not t.done():
                     t.cancel()
-            for f in list(self.pending.values()):
-                if not f.done():
-                    f.cancel()
-            await asyncio.sleep(0)
+            for _ in range(6):
+                await asyncio.sleep(0)
+            for t in self.tasks.values():
+                if not t.done():
+                    t.cancel()
             await asyncio.sleep(0)
             self.base.async_tasks.clear()
             del self.base.protected_tasks[:]
@@ -263,7 +286,7 @@ def enc(case):
                   opt_(c['before'], enc_act), opt_(c['dest']), opt_(c['after'], enc_act)] for c in e['cands']]
         evs.append([e['model'], list(e['srcs']), cands, opt_(e['fin'], enc_act)])
     return [case['cls'], case['queued'], case['nstates'], list(case['models']), evs, list(case['top']),
-            list(case['protected']), list(case['schedule'])]
+            list(case['protected']), list(case['schedule']), [[e, p] for e, p in case.get('pred', [])]]
 
 
 def opt_(x, f=lambda y: y):
@@ -381,6 +404,19 @@ def gen(rng, i, tier):
                 set_act(h, k, [A_REMOVE, rng.randrange(nmodels)])
     top = list(range(ntop))
     protected = [e for e in top if rng.random() < 0.12]
+    # triggers awaited one after another in the SAME asyncio task: [e, p] = e is awaited by the task that awaited p
+    # before (p's exception, if any, caught); mostly p fails: a raising callback or an event invalid in every state
+    pred = []
+    if rng.random() < 0.4:
+        chain = sorted(rng.sample(top, 3 if (ntop >= 3 and rng.random() < 0.3) else 2))
+        for a, b in zip(chain, chain[1:]):
+            pred.append([b, a])
+            x = rng.random()
+            slots = [(h, k) for h, k in all_cbs(events[a]) if get_act(h, k)[0] == A_NONE]
+            if x < 0.5 and slots:
+                set_act(*rng.choice(slots), [A_RAISE])
+            elif x < 0.7:
+                events[a]['srcs'] = []
     ncb = sum(len(all_cbs(e)) for e in events)
     nev = len(events)
     sched = []
@@ -394,11 +430,16 @@ def gen(rng, i, tier):
     for _ in range(ncb + 2):
         sched += list(range(nev))
     return dict(cls=i % 2, queued=queued, nstates=nstates, models=[rng.randrange(nstates) for _ in range(nmodels)],
-                events=events, top=top, protected=protected, schedule=sched, reg=(i // 2) % 2)
+                events=events, top=top, protected=protected, schedule=sched, reg=(i // 2) % 2, pred=pred)
 
 
 def in_envelope(case):
     nev = len(case['events'])
+    pr = case.get('pred', [])
+    if any(e not in case['top'] or p not in case['top'] or not p < e for e, p in pr):
+        return False
+    if len({e for e, _ in pr}) != len(pr) or len({p for _, p in pr}) != len(pr):
+        return False
     if len({e['fin'] is None for e in case['events']}) > 1:
         return False
     refs = []
@@ -425,7 +466,9 @@ RULE = ('cases = 2-4 concurrently awaited triggers (ensure_future) on 1-3 models
         'add_model([...]) call after construction, alternating), queued False/True/"model", 2-3 states, every event '
         'with 1-2 transition candidates whose prepare / condition / before / after callbacks and the finalize callback '
         'each suspend on a future owned by the harness; 0-2 further events are awaited from inside callbacks (own call '
-        'chain), callbacks may raise or call remove_model, tasks may be listed in protected_tasks, sources may exclude '
+        'chain), in 40% of the cases two or three of the top-level triggers are awaited one after another in the SAME '
+        'asyncio task (the earlier one mostly failing: raising callback / event valid in no state; exception caught by '
+        'the caller), callbacks may raise or call remove_model, tasks may be listed in protected_tasks, sources may exclude '
         'the current state (MachineError). The schedule (random prefix + round-robin tail that drains everything) says '
         'which trigger task is started / which pending future is released next; after every step the loop runs until '
         'nothing moves. Observed per step: callback Start/End/raise items with the model state seen, results of '
@@ -447,7 +490,8 @@ THEOREMS = ['C08_cancel_exact', 'C08_cancel_step', 'C08_frame_discipline', 'C08_
             'C08_finalize_only', 'C08_cancelled_result', 'C08_no_overwrite', 'C08_quiescent', 'C08_queued_deferred',
             'C08_queued_idle', 'C08_queued_serial', 'C08_queued_last', 'C08_model_serial', 'C08_global_scan',
             'C08_global_serial_fifo', 'C08_model_serial_fifo', 'C08_items_inside_body', 'C08_busy_defers',
-            'C08_example', 'C08_example_queued', 'C08_example_model']
+            'C08_context_finally', 'C08_context_reset',
+            'C08_example', 'C08_example_queued', 'C08_example_model', 'C08_example_same_task']
 
 
 def _steps(obs):
@@ -479,6 +523,8 @@ def stats(case, obs, dist):
     inc('cls_%s' % ['AsyncMachine', 'HierarchicalAsyncMachine'][case['cls']])
     inc('models_registered_by_%s' % ('one_add_model_call' if case.get('reg', 0) else 'constructor'))
     inc('top_triggers_%d' % len(case['top']))
+    if case.get('pred'):
+        inc('cases_with_triggers_awaited_in_one_task')
     inc('nested_triggers', len(case['events']) - len(case['top']))
     if st is None:
         inc('undecodable')
@@ -500,6 +546,8 @@ def stats(case, obs, dist):
                 if pending_slot.get(c) == FIN:
                     inc('cancelled_inside_finalize')
         for d in s[3]:
+            if d[1] == 1 and any(p == d[0] for _, p in case.get('pred', [])):
+                inc('failed_trigger_followed_by_another_in_the_same_task')
             inc('task_result_%s' % ('true' if d[1:] == [0, 1] else 'false' if d[1:] == [0, 0] else
                                     'exc_%d' % d[2] if d[1] == 1 else 'none'))
         for it in s[1]:
@@ -647,6 +695,13 @@ def small_programs(tier):
                                       dict(model=0, srcs=[0, 1, 2], cands=[_cand(prep=N, dest=2)], fin=N),
                                       dict(model=1, srcs=[0, 1, 2], cands=[_cand(dest=1)], fin=N)],
                               top=[0, 1], protected=[]))
+    for cls in (0, 1):
+        # a failing trigger, then — awaited in the same asyncio task — a slow one that a third trigger cancels
+        progs.append(dict(cls=cls, queued=0, nstates=3, models=[0],
+                          events=[dict(model=0, srcs=[0, 1, 2], cands=[_cand(before=[A_RAISE], dest=1)], fin=None),
+                                  dict(model=0, srcs=[0, 1, 2], cands=[_cand(before=N, dest=1, after=N)], fin=None),
+                                  dict(model=0, srcs=[0, 1, 2], cands=[_cand(prep=N, dest=2)], fin=None)],
+                          top=[0, 1, 2], protected=[], pred=[[1, 0]]))
     if tier == 'thorough':
         for queued in (0, 1, 2):
             progs.append(dict(cls=0, queued=queued, nstates=3, models=[0, 0],
